@@ -31,6 +31,19 @@ fn a256(prop: &'static str, name: &str) -> HxCfg {
     HxCfg::new(prop, name, 16, 256, &[0, 5, 254, 255], &[0], &[0])
 }
 
+/// data beyond a few dozen bytes inside ordinary histories: 255 and 4097 bytes (one- and two-byte length boundaries)
+fn big(prop: &'static str) -> HxCfg {
+    HxCfg::new(prop, "3 ids, data of 255 and 4097 bytes", 2, 3, &[0, 1, 2], &[0], &[250, 252])
+}
+/// one datum above 64 KiB next to the 256-byte one
+fn huge(prop: &'static str) -> HxCfg {
+    HxCfg::new(prop, "3 ids, data of 256 and 65 537 bytes", 2, 3, &[0, 1, 2], &[0], &[251, 253])
+}
+/// an edge capacity and a vertex capacity that are no powers of two, ids in the thousands
+fn odd(prop: &'static str) -> HxCfg {
+    HxCfg::new(prop, "ids 0, 1499, 2998 in 2999 slots, Sodg<7>", 7, 2999, &[0, 1499, 2998], &[0], &[0])
+}
+
 fn all_ops(mut c: HxCfg) -> HxCfg {
     c.clone_swap = true;
     c.reload_swap = true;
@@ -141,6 +154,9 @@ fn gc_plan(prop: &'static str, tier: &str) -> Vec<HxCfg> {
             drain(seeded5(prop, "5 ids from seeds", 4)),
             drain(HxCfg::new(prop, "3 ids, heap-encoded data of two lengths and the empty datum", 2, 3, &[0, 1, 2], &[0], &[1, 6, 2])),
             drain(depth(a256(prop, "ids 0,5,254,255 in 256 slots, Sodg<16>"), 4)),
+            drain(depth(swaps(big(prop)), 5)),
+            drain(depth(huge(prop), 4)),
+            drain(depth(odd(prop), 4)),
         ]
     } else {
         vec![
@@ -154,6 +170,9 @@ fn gc_plan(prop: &'static str, tier: &str) -> Vec<HxCfg> {
             wall(drain(HxCfg::new(prop, "3 ids, heap-encoded data of two lengths and the empty datum", 2, 3, &[0, 1, 2], &[0], &[1, 6, 2])), 300),
             wall(drain(depth(HxCfg::new(prop, "3 ids, Sodg<1>, 2 labels", 1, 3, &[0, 1, 2], &[0, 1], &[0]), 12)), 600),
             wall(drain(seeded5(prop, "5 ids from seeds", 5)), 600),
+            wall(drain(depth(all_ops(big(prop)), 7)), 600),
+            wall(drain(depth(swaps(huge(prop)), 5)), 600),
+            wall(drain(depth(swaps(odd(prop)), 6)), 600),
         ]
     }
 }
@@ -182,6 +201,9 @@ pub fn hx_plan(prop: &'static str, tier: &str) -> Vec<HxCfg> {
                 v.push(depth(a4(prop, "4 ids"), 6));
                 v.push(seeded5(prop, "5 ids from seeds", 3));
                 v.push(depth(HxCfg::new(prop, "3 ids, two labels that print alike ('a b' and 'ab')", 2, 3, &[0, 1, 2], &[8, 9], &[0]), 6));
+                v.push(depth(swaps(big(prop)), 5));
+                v.push(depth(huge(prop), 4));
+                v.push(depth(odd(prop), 4));
             } else {
                 v.push(wall(depth(c, 10), 900));
                 let mut m = all_ops(a3x(prop, "3 ids, 2 labels, 2 data, all ops (merges incl. a tree carrying the empty datum)"));
@@ -190,6 +212,9 @@ pub fn hx_plan(prop: &'static str, tier: &str) -> Vec<HxCfg> {
                 v.push(wall(a4(prop, "4 ids"), 1500));
                 v.push(wall(depth(a256(prop, "ids 0,5,254,255 in 256 slots, Sodg<16>"), 7), 900));
                 v.push(wall(seeded5(prop, "5 ids from seeds", 5), 600));
+                v.push(wall(depth(all_ops(big(prop)), 7), 600));
+                v.push(wall(depth(swaps(huge(prop)), 5), 600));
+                v.push(wall(depth(swaps(odd(prop)), 6), 600));
             }
             v
         }
@@ -199,13 +224,14 @@ pub fn hx_plan(prop: &'static str, tier: &str) -> Vec<HxCfg> {
                 c
             };
             if quick(tier) {
-                vec![t(all_ops(a3(prop, "3 ids, all ops"))), t(depth(a4(prop, "4 ids"), 7)), t(depth(all_ops(a5(prop, "ids 1..4 in 5 slots, all ops")), 5))]
+                vec![t(all_ops(a3(prop, "3 ids, all ops"))), t(depth(a4(prop, "4 ids"), 7)), t(depth(all_ops(a5(prop, "ids 1..4 in 5 slots, all ops")), 5)), t(depth(swaps(odd(prop)), 4))]
             } else {
                 vec![
                     wall(t(all_ops(a3(prop, "3 ids, all ops"))), 300),
                     wall(t(depth(all_ops(a4(prop, "4 ids, all ops")), 10)), 1200),
                     wall(t(depth(all_ops(a5(prop, "ids 1..4 in 5 slots, all ops")), 8)), 900),
                     wall(t(depth(all_ops(a256(prop, "ids 0,5,254,255 in 256 slots")), 6)), 900),
+                    wall(t(depth(all_ops(odd(prop)), 6)), 600),
                 ]
             }
         }
@@ -227,6 +253,9 @@ pub fn hx_plan(prop: &'static str, tier: &str) -> Vec<HxCfg> {
                     r(depth(a4(prop, "4 ids"), 6)),
                     r(depth(HxCfg::new(prop, "ids 0,5,254,255 in 256 slots, Sodg<16>", 16, 256, &[0, 5, 254, 255], &[0], &[0, 1]), 3)),
                     r(seeded5(prop, "5 ids from seeds", 2)),
+                    r(depth(big(prop), if prop == "C09" { 3 } else { 5 })),
+                    r(depth(huge(prop), if prop == "C09" { 2 } else { 4 })),
+                    if prop == "C09" { r(depth(HxCfg::new(prop, "ids 0, 5, 10 in 11 slots, Sodg<7>", 7, 11, &[0, 5, 10], &[0], &[0]), 3)) } else { r(depth(odd(prop), 4)) },
                 ]
             } else {
                 vec![
@@ -237,6 +266,9 @@ pub fn hx_plan(prop: &'static str, tier: &str) -> Vec<HxCfg> {
                     wall(r(depth(all_ops(a4(prop, "4 ids, all ops")), if prop == "C09" { 7 } else { 9 })), 1200),
                     wall(r(depth(HxCfg::new(prop, "ids 0,5,254,255 in 256 slots, Sodg<16>", 16, 256, &[0, 5, 254, 255], &[0], &[0, 1]), 5)), 1200),
                     wall(r(seeded5(prop, "5 ids from seeds", 4)), 900),
+                    wall(r(depth(big(prop), if prop == "C09" { 4 } else { 7 })), 900),
+                    wall(r(depth(huge(prop), if prop == "C09" { 3 } else { 5 })), 900),
+                    if prop == "C09" { wall(r(depth(HxCfg::new(prop, "ids 0, 5, 10 in 11 slots, Sodg<7>", 7, 11, &[0, 5, 10], &[0], &[0]), 5)), 900) } else { wall(r(depth(odd(prop), 6)), 900) },
                 ]
             }
         }
@@ -247,7 +279,7 @@ pub fn hx_plan(prop: &'static str, tier: &str) -> Vec<HxCfg> {
                 c
             };
             if quick(tier) {
-                vec![c(all_ops(a3(prop, "3 ids, all ops"))), c(depth(a4(prop, "4 ids"), 6)), c(depth(HxCfg::new(prop, "3 ids, heap, inline, short-heap and empty data", 2, 3, &[0, 1, 2], &[0], &[0, 1, 4, 2]), 6)), c(seeded5(prop, "5 ids from seeds", 2))]
+                vec![c(all_ops(a3(prop, "3 ids, all ops"))), c(depth(a4(prop, "4 ids"), 6)), c(depth(HxCfg::new(prop, "3 ids, heap, inline, short-heap and empty data", 2, 3, &[0, 1, 2], &[0], &[0, 1, 4, 2]), 6)), c(seeded5(prop, "5 ids from seeds", 2)), c(depth(big(prop), 5)), c(depth(huge(prop), 3)), c(depth(odd(prop), 4))]
             } else {
                 vec![
                     wall(c(all_ops(a3(prop, "3 ids, all ops"))), 600),
@@ -255,6 +287,9 @@ pub fn hx_plan(prop: &'static str, tier: &str) -> Vec<HxCfg> {
                     wall(c(depth(all_ops(a4(prop, "4 ids, all ops")), 9)), 1500),
                     wall(c(seeded5(prop, "5 ids from seeds", 4)), 900),
                     wall(c(depth(a256(prop, "ids 0,5,254,255 in 256 slots, Sodg<16>"), 5)), 900),
+                    wall(c(depth(big(prop), 7)), 900),
+                    wall(c(depth(huge(prop), 5)), 900),
+                    wall(c(depth(odd(prop), 6)), 900),
                 ]
             }
         }
@@ -274,6 +309,9 @@ pub fn hx_plan(prop: &'static str, tier: &str) -> Vec<HxCfg> {
                     p(seeded5(prop, "5 ids from seeds", 2)),
                     p(depth(HxCfg::new(prop, "ids 0, 256, 511 in 520 slots", 2, 520, &[0, 256, 511], &[0], &[3]), 4)),
                     p(depth(HxCfg::new(prop, "3 ids, two labels that print alike ('a b' and 'ab')", 2, 3, &[0, 1, 2], &[8, 9], &[3]), 5)),
+                    p(depth(big(prop), 4)),
+                    p(depth(huge(prop), 3)),
+                    p(depth(odd(prop), 4)),
                 ]
             } else {
                 vec![
@@ -285,6 +323,9 @@ pub fn hx_plan(prop: &'static str, tier: &str) -> Vec<HxCfg> {
                     wall(p(seeded5(prop, "5 ids from seeds", 4)), 900),
                     wall(p(depth(HxCfg::new(prop, "ids 0, 256, 511 in 520 slots", 2, 520, &[0, 256, 511], &[0], &[3]), 6)), 600),
                     wall(p(depth(HxCfg::new(prop, "3 ids, two labels that print alike ('a b' and 'ab')", 2, 3, &[0, 1, 2], &[8, 9], &[3]), 7)), 600),
+                    wall(p(depth(big(prop), 6)), 600),
+                    wall(p(depth(huge(prop), 4)), 600),
+                    wall(p(depth(odd(prop), 6)), 600),
                 ]
             }
         }
